@@ -449,7 +449,7 @@ impl Prop for C13 {
         20
     }
     fn cases(tier: Tier) -> u64 {
-        tier.pick(30_000, 500_000)
+        tier.pick(30_000, 200_000)
     }
     fn strategy(tier: Tier) -> BoxedStrategy<Case> {
         let mc = gen::tier_chroms(tier);
